@@ -1,21 +1,76 @@
-(* C03 - Render / re-parse round trip and simplify().  Statements only (initial set).
-   simplify models AnsiString.simplify: drop invalid settings, render, parse the rendering. *)
+(* C03 - Render / re-parse round trip and simplify() preserve appearance and are stable.
+   Statements only.  render s = str(s) = to_str(optimize, no reset_start, reset_end); parse models
+   AnsiString(text) (set_ansi_str); simplify models AnsiString.simplify: drop the invalid settings,
+   render, parse the rendering (as repaired: known_findings F2 F3 F4 F20 F28).
+   style s i := style_of (texts of the settings character i reports) - the effective style on the
+   SPECIFICATION terminal; teq is exact equality of terminal states.  Hypotheses:
+     ssorted          - change points strictly increasing (reachable-value invariant, C09);
+     no_esc (base s)  - no ESC in the base text (known finding K1);
+     adds_wf / valid_adds_wf - the (valid) setting texts are well-formed SGR parameter groups, the
+                        premise of the property;
+     coh_marks        - an object identity determines its text (true of Python objects; needed because
+                        model settings are (identity, text) pairs). *)
 From AS Require Import Base Effects.
+From AS.Spec Require Import Terminal.
 From AS.Model Require Import Sgr Tokenizer Table Ops Render Parse.
-From AS.Proofs Require Import TokenizerProofs ParseBasics.
+From AS.Proofs Require Import TableProofs TokenizerProofs ParseBasics RemoveProofs RenderProofs ParseProofs RoundTripProofs.
 
 Theorem C03_simplify_def : forall s nid,
   simplify s nid = parse (render (mkA (base s) (drop_invalid (tbl s)))) nid.
 Proof. exact simplify_def. Qed.
 Print Assumptions C03_simplify_def.
 
-(* invalid settings are gone before the value is rendered *)
+(* AnsiString(str(s)): same text, EXACTLY the same effective style on every character; the re-parsed
+   value is well formed, parsable and valid; and its own str() is a fixed point of parse-then-render *)
+Theorem C03_roundtrip : forall s nid,
+  ssorted (tbl s) -> no_esc (base s) = true -> adds_wf (tbl s) ->
+  let s' := fst (parse (render s) nid) in
+  base s' = base s
+  /\ (forall i, i < length (base s) -> teq (style s' i) (style s i))
+  /\ rm_wf s' /\ is_parsable_tbl (tbl s') = true /\ is_valid_tbl (tbl s') = true
+  /\ (forall n, render (fst (parse (render s') n)) = render s').
+Proof. exact RoundTripProofs.C03_roundtrip. Qed.
+Print Assumptions C03_roundtrip.
+
+(* the same for to_str under every combination of optimize / reset_start / reset_end *)
+Theorem C03_roundtrip_all_flags : forall s opt rs re nid,
+  ssorted (tbl s) -> no_esc (base s) = true -> adds_wf (tbl s) ->
+  let s' := fst (parse (to_str s opt rs re) nid) in
+  base s' = base s /\ forall i, i < length (base s) -> teq (style s' i) (style s i).
+Proof. exact roundtrip_to_str_exact. Qed.
+Print Assumptions C03_roundtrip_all_flags.
+
+(* simplify(): the text and the effective style of every character (computed from the VALID settings:
+   invalid ones are dropped by definition) are unchanged; afterwards is_formatting_parsable() and
+   is_formatting_valid() are True and the value is well formed; a second simplify() leaves str()
+   unchanged (idempotence); str() of the simplified value is a fixed point:
+   str(AnsiString(str(s1))) == str(s1) *)
+Theorem C03_simplify : forall s n1,
+  ssorted (tbl s) -> no_esc (base s) = true -> valid_adds_wf (tbl s) ->
+  let s1 := fst (simplify s n1) in
+  base s1 = base s
+  /\ (forall i, i < length (base s) -> teq (style s1 i) (style_of (map stxt (active_at (drop_invalid (tbl s)) i))))
+  /\ (coh_marks (tbl s) -> forall i, i < length (base s) -> teq (style s1 i) (style_valid s i))
+  /\ is_parsable_tbl (tbl s1) = true /\ is_valid_tbl (tbl s1) = true /\ rm_wf s1
+  /\ (forall n2, render (fst (simplify s1 n2)) = render s1)
+  /\ (forall n, render (fst (parse (render s1) n)) = render s1).
+Proof. exact RoundTripProofs.C03_simplify. Qed.
+Print Assumptions C03_simplify.
+
+(* parsing ANY input yields only parsable, valid settings *)
+Theorem C03_parse_parsable : forall w nid,
+  is_parsable_tbl (tbl (fst (parse w nid))) = true /\ is_valid_tbl (tbl (fst (parse w nid))) = true.
+Proof. exact parse_parsable. Qed.
+Print Assumptions C03_parse_parsable.
+
+(* invalid settings are gone before the value is rendered; dropping them is filtering, per character *)
 Theorem C03_invalid_dropped : forall t, is_valid_tbl (drop_invalid t) = true.
 Proof. exact drop_invalid_valid. Qed.
-Print Assumptions C03_invalid_dropped.
+Theorem C03_drop_invalid_active : forall t i, coh_marks t ->
+  active_at (drop_invalid t) i = filter validS (active_at t i).
+Proof. exact drop_invalid_active. Qed.
+Print Assumptions C03_drop_invalid_active.
 
-(* the text of a re-parsed rendering is the rendering minus its SGR sequences *)
-Theorem C03_reparse_text : forall s nid,
-  base (fst (parse (render s) nid)) = unformatted (tokenize false (Some [CH_m]) (render s)).
-Proof. intros. apply parse_base. Qed.
-Print Assumptions C03_reparse_text.
+(* regression of finding F28 (clear code 10 re-parsed as a font setting) and further concrete values *)
+Example C03_f28_regression := simplify_stable_regression.
+Example C03_stability_examples := StabilityExamples.stability_examples.
